@@ -24,6 +24,7 @@ import EG.Lemmas.JoinsJoin
 import EG.Lemmas.JoinsPolyline
 import EG.Lemmas.JoinsPolyScan
 import EG.Lemmas.JoinsTriMove
+import EG.Lemmas.JoinsPixels
 namespace EG.C07.Joins
 open EG EG.Joins
 
@@ -189,12 +190,25 @@ theorem polyline_moved_vertices_draw_partial (vs : List Pt) (w : Nat) (d : Pt) (
     simp only [Option.map_some, Option.bind_eq_bind, Option.bind_some, ne_eq, not_true_eq_false,
       ↓reduceIte, pure, PolyDraw.translate]
 
+/-- `pixels()` of a stroked polyline (width >= 2) with moved vertices is the moved pixel sequence
+(same pixels, same order). -/
+theorem polyline_moved_vertices_pixels_partial (vs : List Pt) (w : Nat) (d : Pt) (hw : 2 ≤ w)
+    (hn : 2 ≤ vs.length) (hns : PolyNoSat w d vs) (hg : BoxGuard vs w d) (hrows : RowsGuard vs w d) :
+    pixels ⟨Pt.zero, vs.map (· + d)⟩ w = (pixels ⟨Pt.zero, vs⟩ w).map (·.map (· + d)) :=
+  pixels_moved vs w d hw hn hns hg hrows
+
+/-- `pixels()` of a stroked polyline (width >= 2) moved with its `translate` field is the moved
+pixel sequence. -/
+theorem polyline_translate_field_pixels (t : Pt) (vs : List Pt) (w : Nat) (hw : 2 ≤ w)
+    (hn : 1 < vs.length) :
+    pixels ⟨t, vs⟩ w = (pixels ⟨Pt.zero, vs⟩ w).map (·.map (· + t)) :=
+  pixels_translate_field t vs w hw hn
+
 -- the former C07 witness satisfies all guards: its picture moves with its vertices
 example : 2 ≤ 4 ∧ 2 ≤ ([⟨0, 0⟩, ⟨-6, -6⟩, ⟨-5, 3⟩] : List Pt).length ∧
     PolyNoSat 4 ⟨-3, 4⟩ [⟨0, 0⟩, ⟨-6, -6⟩, ⟨-5, 3⟩] ∧ BoxGuard [⟨0, 0⟩, ⟨-6, -6⟩, ⟨-5, 3⟩] 4 ⟨-3, 4⟩ ∧
     RowsGuard [⟨0, 0⟩, ⟨-6, -6⟩, ⟨-5, 3⟩] 4 ⟨-3, 4⟩ := by decide
 
--- [V] pixels() of a stroked polyline moved with its translate field is the shifted pixel sequence: carried by correspondence + oracle only
 /-- `sorted_clockwise` commutes with translation (the doubled area is invariant). -/
 theorem triangle_sorted_clockwise_translate (t : Tri) (d : Pt) :
     (t.translate d).sortedClockwise = t.sortedClockwise.translate d :=
@@ -231,10 +245,15 @@ theorem triangle_draw_translate_partial (t : Tri) (style : TriStyle) (d : Pt)
     triDraw (t.translate d) style = (triDraw t style).map (·.map (shiftCall · d)) :=
   triDraw_translate t style d hg
 
+/-- `pixels()` of a moved styled triangle is the moved pixel sequence, with the same colours. -/
+theorem triangle_pixels_translate_partial (t : Tri) (style : TriStyle) (d : Pt)
+    (hg : TriGuards t style d) :
+    triPixels (t.translate d) style = (triPixels t style).map (·.map (shiftPx · d)) :=
+  triPixels_translate t style d hg
+
 -- the former C07 witness (triangle (-5,-4),(-5,-1),(-1,-4), width 3, Center, moved by (-7,-9)) satisfies the guards
 example : TriGuards ⟨⟨-5, -4⟩, ⟨-5, -1⟩, ⟨-1, -4⟩⟩ ⟨some 2, some 1, 3, .center⟩ ⟨-7, -9⟩ := by decide
 
--- [V] pixels() of a styled triangle moved by d is the shifted pixel sequence (StyledPixelsIterator over the same scanline iterator): carried by correspondence + oracle only
 -- [V] the guards (PolyNoSat, BoxGuard, RowsGuard, TriGuards: no saturating i32 cast, corners are i32 values) hold for all display-scale inputs: carried by correspondence + oracle only
 
 end EG.C07.Joins
